@@ -11,6 +11,7 @@
  *                    U heap Tuple; lower case s r u = the same allocated RAW (not registered);
  *                    ! = allocated with alloc_root/new_root (root flag).  The new pointer is
  *                    put into a stack slot (as a program holding it in a local would).
+ *   C<id>=<src>      new node = copy(src) (registered; src is S R A L T E or U)
  *   P<id>.<i>=<t>    pointer store: field i of S (0,1), the pointer of R / B (i = 0)
  *   I<id>,<k>=<t>    insert: A L U push (k ignored); T E set key k -> Ref to t
  *   D<id>,<k>        remove: A L U pop_at index k; T E rem key k
@@ -131,6 +132,19 @@ static void __attribute__((noinline)) op_new(long id, char k, int root) {
   LED[id] = (uintptr_t)p ^ MASK; KIND[id] = k; DEAD[id] = 0; ROOTF[id] = (char)root;
   if (id > MAXID) MAXID = id;
   if (is_reg(k)) hput((uintptr_t)p ^ MASK, id);
+  keep_add(id);
+  p = NULL;
+}
+
+static void __attribute__((noinline)) op_copy(long id, long src) {
+  var p = copy(nptr(src));
+  char k = KIND[src];
+  if (k >= 'a') k = (char)(k - 'a' + 'A');
+  if (k == 'S') { struct Probe* q = p; q->id = id; q->canary = CANARY; }
+  ensure(id);
+  LED[id] = (uintptr_t)p ^ MASK; KIND[id] = k; DEAD[id] = 0; ROOTF[id] = 0;
+  if (id > MAXID) MAXID = id;
+  hput((uintptr_t)p ^ MASK, id);
   keep_add(id);
   p = NULL;
 }
@@ -266,6 +280,7 @@ static void __attribute__((noinline)) exec_tok(char* tok, int* nobs) {
   switch (tok[0]) {
     case 'N': { long id = strtol(tok + 1, &e, 10); char k = *e; int root = e[1] == '!';
       op_new(id, k, root); break; }
+    case 'C': { long id = strtol(tok + 1, &e, 10); long src = strtol(e + 1, &e, 10); op_copy(id, src); break; }
     case 'P': { long id = strtol(tok + 1, &e, 10); long i = strtol(e + 1, &e, 10); long t = strtol(e + 1, &e, 10);
       op_store(id, i, t); break; }
     case 'I': { long id = strtol(tok + 1, &e, 10); long k = strtol(e + 1, &e, 10); long t = strtol(e + 1, &e, 10);
@@ -290,7 +305,7 @@ static void one_case(char* line) {
   NKFREE = MAXK; KEEPP = keep;
   /* size the ledgers from the largest id in the script */
   long mx = 16;
-  for (char* s = line; *s; s++) if (*s == 'N') { long v = strtol(s + 1, NULL, 10); if (v > mx) mx = v; }
+  for (char* s = line; *s; s++) if (*s == 'N' || *s == 'C') { long v = strtol(s + 1, NULL, 10); if (v > mx) mx = v; }
   CAP = 0; LED = NULL; KIND = NULL; DEAD = NULL; ROOTF = NULL; FIN = NULL; MAXID = 0;
   ensure(mx + 1);
   KSLOT = calloc(CAP, sizeof *KSLOT); MARKED = calloc(CAP, 1);
